@@ -547,6 +547,8 @@ fn spawn_async_ao_list_in_task'''),
         ('push-reuses-top-scope-kind', 'brush-core/src/env.rs', 'self.scopes.push((scope_type, ShellVariableMap::default()));', 'self.scopes.push((EnvironmentScope::Local, ShellVariableMap::default()));'),
     ],
     'U15': [
+        ('here-document-continuations-removed-after-expansion', 'brush-core/src/expansion.rs', "    let body = remove_line_continuations(word_str.as_ref());\n    expander.basic_expand_to_str(body.as_str()).await", "    let body = expander.basic_expand_to_str(word_str.as_ref()).await?;\n    Ok(remove_line_continuations(body.as_str()))"),
+        ('here-document-body-expanded-with-brace-expansion', 'brush-core/src/expansion.rs', "    expander.heredoc_mode = true;\n    expander.disable_brace_expansion = true;\n", "    expander.heredoc_mode = true;\n"),
         ('heredoc-continuation-ignores-escaped-backslash', 'brush-core/src/expansion.rs', "        } else if c == '\\\\' {\n            after_backslash = true;", "        } else if c == '\\\\' {\n            after_backslash = true;\n            result.push(c);"),
         ('heredoc-continuation-keeps-the-backslash', 'brush-core/src/expansion.rs', "            if c != '\\n' {\n                result.push('\\\\');\n                result.push(c);\n            }", "            result.push('\\\\');\n            if c != '\\n' {\n                result.push(c);\n            }"),
         ('heredoc-trailing-backslash-lost', 'brush-core/src/expansion.rs', "    if after_backslash {\n        result.push('\\\\');\n    }\n\n    result\n}", "    result\n}"),
